@@ -11,9 +11,9 @@ import (
 // segmented-string evaluation of `in` up to the call of the splitter (engine P with a probe). Every
 // value text has one of the skeletons
 //
-//   A '(' B ')' C      A without '(', C without ')', B anything      -> options = B
-//   A                  A without '('                                  -> configuration error
-//   A '(' C            A without '(', C without ')'                   -> configuration error
+//	A '(' B ')' C      A without '(', C without ')', B anything      -> options = B
+//	A                  A without '('                                  -> configuration error
+//	A '(' C            A without '(', C without ')'                   -> configuration error
 //
 // ("the first '(' and the last ')'": an option may itself contain parentheses, quoted). A parser
 // that stops at the first ')' or starts at the last '(' is exposed by the on-demand refinement of B.
